@@ -8,7 +8,7 @@ import props.C02 as C02
 PID = 'C17'
 PROPERTY_FILE = 'Properties/C17.v'
 # generated model parts (translate/) this property's model / proofs really depend on
-GEN_DEPS = ['OpsImpl', 'QuantityImpl', 'StateInventory']
+GEN_DEPS = ['OpsImpl', 'QuantityImpl', 'StateInventory', 'EffectsImpl']
 MODEL_TARGETS = R.MODEL_TARGETS
 PROOF_TARGETS = ['Proofs/GenOpsEq.vo', 'Proofs/C15Proofs.vo']
 COQ_HEADER = R.COQ_HEADER
@@ -139,6 +139,18 @@ def gen_cases(rng, tier):
         perm = _shuffle(rng, script, w)
         cases.append({'dm': rng.choice(W.MODES), 'pre': False, 'script': script, 'hist': hist,
                       'late': late, 'q': {'k': 'op', 'o': op}, 'perm': perm})
+        # the product / quotient of the two units a term-defined unit is made of, evaluated for
+        # the first time AFTER that unit was declared (seeded C17-i: cache seeded at declaration)
+        for d in script:
+            if d['d'] == 'unit' and d.get('def') and d['def'][0] == 'term' and len(d['def'][1]) == 3 \
+                    and d['def'][1][0][0][0] == 'n':
+                u1, u2, e2 = d['def'][1][1][0][1], d['def'][1][2][0][1], d['def'][1][2][1]
+                o2 = ['mul' if e2 == 1 else 'div', C02._opd(rng, u1, rng.choice('qu')),
+                      C02._opd(rng, u2, rng.choice('qu'))]
+                if o2[0] == 'div' and o2[2][0] == 'q':
+                    o2[2][1] = C02._nonzero_stored(rng, w, u2)
+                cases.append({'dm': rng.choice(W.MODES), 'pre': False, 'script': script, 'hist': [],
+                              'late': [], 'q': {'k': 'op', 'o': o2}, 'perm': None})
     # evaluate, then declare a UNIT of ANOTHER type built from the same two units, evaluate
     # again: the cached result must not be touched by the declaration (seeded C17-f)
     for i in range(24 if tier == 'quick' else 240):
